@@ -6,6 +6,10 @@ Status: the refinement is proved for `create` and `track` (text-level edit ⇒ a
 re-parsed records) and for the pause loop's arithmetic; for `start`/`stop`/`switch` it is stated
 and — where not proved — covered by the correspondence/abstract-oracle run on the real code only
 (see the list of obligations and DESIGN.md).
+The statements of `create_refines`, `track_refines` and `history_refines` as first written were
+FALSE for the model (counterexamples in the comments below); they are proved with the extra
+hypotheses spelled out there.  `track_second_open_range_rejected` is proved for files that do not
+end in a lone carriage return (`…_partial`).
 -/
 import KlogV.Lemmas.Refine
 import KlogV.Spec.Grammar
@@ -40,81 +44,163 @@ theorem insertPos_sorted (rs : List Record) (d : Date) (r' : Record) (hd : Spec.
   KlogV.insertPos_sorted rs d r' hd hs
 
 /-- bytes of a summary / entry line as typed on the command line: no line feed inside, no
-carriage return at the end (D13) -/
-def CleanLine (l : Bytes) : Prop := (10 : UInt8) ∉ l ∧ l.getLast? ≠ some 13
+carriage return at the end (D13) (definition: KlogV/Lemmas/Refine1.lean) -/
+abbrev CleanLine (l : Bytes) : Prop := KlogV.CleanLine l
 
-/-- `create`: after a successful run, re-reading the file yields exactly the old records plus ONE
-new record — dated as requested, with the given (or configured) should-total and the given summary,
-no entries — at the abstract insert position; every other record is untouched and in its place. -/
+/-
+-- FALSE: (1) a file that ends in a carriage return without line feed: the reconciler completes the
+-- last line with the file's line ending, the CR becomes part of a CRLF ending and the text of that
+-- line changes.  file = "2000-01-01\nfoo\r", `create --date 2000-01-02`: succeeds with
+-- "2000-01-01\nfoo\r\n\n2000-01-02\n"; the old record's summary was ["foo\r"], it is re-read as ["foo"]
+-- — the old record is NOT untouched.  (2) a date that is not a calendar date (only reachable through
+-- `DateSel.explicit` / an invalid clock reading in the model): `create` with ⟨12345, 1, 1⟩ on the empty
+-- file succeeds with "2345-01-01\n" (digits cut off), ⟨2000, 101, 1⟩ yields "2000-01-01\n": the new
+-- record is not dated as requested.
 theorem create_refines (u : UTab) (cfg : Config) (now : Instant) (sel : DateSel) (should : Option Int)
     (summary : Option (List Bytes)) (file file' : Bytes) (rs : List Record) (bos : List BlockOut) (d : Date)
     (hp : parseDoc file = .records rs bos) (hd : atDate sel now.date = some d)
     (hclean : ∀ l ∈ summary.getD [], CleanLine l ∧ okRecordSummaryLine (decodeGo l) = true)
     (h : runCmd u cfg now (.create sel should summary) file = .ok file') :
     ∃ rs' bos', parseDoc file' = .records rs' bos' ∧
-      Spec.Create rs d (match should with | some s => some s | none => cfg.should) ((summary.getD []).map decodeGo) rs' :=
-  KlogV.create_refines u cfg now sel should summary file file' rs bos d hp hd hclean h
+      Spec.Create rs d (match should with | some s => some s | none => cfg.should) ((summary.getD []).map decodeGo) rs'
+-/
+
+/-- `create` (corrected: `hv` the date is a calendar date, `hcr` the file does not end in a lone
+carriage return): after a successful run, re-reading the file yields exactly the old records plus
+ONE new record — dated as requested, with the given (or configured) should-total and the given
+summary, no entries — at the abstract insert position; every other record is untouched and in its
+place. -/
+theorem create_refines (u : UTab) (cfg : Config) (now : Instant) (sel : DateSel) (should : Option Int)
+    (summary : Option (List Bytes)) (file file' : Bytes) (rs : List Record) (bos : List BlockOut) (d : Date)
+    (hp : parseDoc file = .records rs bos) (hd : atDate sel now.date = some d)
+    (hclean : ∀ l ∈ summary.getD [], CleanLine l ∧ okRecordSummaryLine (decodeGo l) = true)
+    (hv : d.valid = true) (hcr : file.getLast? ≠ some 13)
+    (h : runCmd u cfg now (.create sel should summary) file = .ok file') :
+    ∃ rs' bos', parseDoc file' = .records rs' bos' ∧
+      Spec.Create rs d (match should with | some s => some s | none => cfg.should) ((summary.getD []).map decodeGo) rs' := by
+  cases should <;>
+    exact KlogV.create_refines u cfg now sel _ summary file file' rs bos d hp hd hclean hv hcr _ rfl h
 
 /-- the entry that the text of `klog track` denotes: what is read from its lines when they are
 written as the only entry under a headline, with indentation `ind` (by C01 this is what the
-grammar of the specification assigns to these lines) -/
-def Denotes (ind : List Char) (entry : List Bytes) (e : Entry) : Prop :=
-  ∃ first rest, entry = first :: rest ∧
-    parseRecord 0 ("2000-01-01".toList :: (ind ++ decodeGo first) :: rest.map (fun l => ind ++ ind ++ decodeGo l)) =
-      .record ⟨⟨2000, 1, 1, true⟩, none, [], [e]⟩
+grammar of the specification assigns to these lines) (definition: KlogV/Lemmas/Refine1.lean) -/
+abbrev Denotes (ind : List Char) (entry : List Bytes) (e : Entry) : Prop := KlogV.Denotes ind entry e
 
-/-- `track`: after a successful run, re-reading the file yields the old records with exactly ONE
-entry — the one the text denotes, value and summary — added at the end of the target record (the
-first record with that date), or a new record with just this entry and the configured should-total
-at the abstract insert position when no record has that date; nothing else changes. -/
+/-
+-- FALSE: (1) a file that ends in a carriage return without line feed (see `create_refines`):
+-- file = "2000-01-01\n    1h foo\r", `track 2h` (today = 2000-01-01) succeeds with
+-- "2000-01-01\n    1h foo\r\n    2h\n"; the first entry's summary was ["foo\r"] and is re-read as ["foo"],
+-- so the result is not "old record + one entry".  (2) no text / an empty first line: entry = [] or [""]
+-- on "2000-01-01\n    1h foo\n" succeeds with "2000-01-01\n    1h foo\n    \n" — a blank line, NO entry is
+-- added, and the text denotes nothing.  (3) a last line of blanks only: entry = ["2h", " "] succeeds
+-- with "…    2h\n         \n" (the blank line ends the block, the entry ⟨2h, [""]⟩ is added), but
+-- ["2h", " "] denotes nothing (written under a headline it is ErrorMalformedSummary).  (4) as for
+-- `create`, a date that is not a calendar date when the record has to be created.
 theorem track_refines (u : UTab) (cfg : Config) (now : Instant) (sel : DateSel) (entry : List Bytes)
     (file file' : Bytes) (rs : List Record) (bos : List BlockOut) (d : Date)
     (hp : parseDoc file = .records rs bos) (hd : atDate sel now.date = some d)
     (hclean : ∀ l ∈ entry, CleanLine l)
     (h : runCmd u cfg now (.track sel entry) file = .ok file') :
     ∃ rs' bos' ind e, parseDoc file' = .records rs' bos' ∧ Spec.Indent ind ∧ Denotes ind entry e ∧
-      Spec.AddEntry rs d cfg.should e rs' :=
-  KlogV.track_refines u cfg now sel entry file file' rs bos d hp hd hclean h
+      Spec.AddEntry rs d cfg.should e rs'
+-/
 
-/-- A rejected command changes nothing: it has no file to write (C05); in particular `track` of an
-open range into a record that already has one is rejected. -/
+/-- `track` (corrected: `hne`/`hnb` the entry has at least one line and no line of blanks only,
+`hv` the date is a calendar date if a record has to be created, `hcr` the file does not end in a
+lone carriage return): after a successful run, re-reading the file yields the old records with
+exactly ONE entry — the one the text denotes, value and summary — added at the end of the target
+record (the first record with that date), or a new record with just this entry and the configured
+should-total at the abstract insert position when no record has that date; nothing else changes. -/
+theorem track_refines (u : UTab) (cfg : Config) (now : Instant) (sel : DateSel) (entry : List Bytes)
+    (file file' : Bytes) (rs : List Record) (bos : List BlockOut) (d : Date)
+    (hp : parseDoc file = .records rs bos) (hd : atDate sel now.date = some d)
+    (hclean : ∀ l ∈ entry, CleanLine l)
+    (hne : entry ≠ []) (hnb : ∀ l ∈ entry, l.all isBlankByte = false)
+    (hv : Spec.targetIdx rs d = none → d.valid = true) (hcr : file.getLast? ≠ some 13)
+    (h : runCmd u cfg now (.track sel entry) file = .ok file') :
+    ∃ rs' bos' ind e, parseDoc file' = .records rs' bos' ∧ Spec.Indent ind ∧ Denotes ind entry e ∧
+      Spec.AddEntry rs d cfg.should e rs' :=
+  KlogV.track_refines u cfg now sel entry file file' rs bos d hp hd hclean hne hnb hv hcr h
+
+/-
+-- TODO-unproved: the statement for ALL files.  Proved below for files that do not end in a lone
+-- carriage return (`hcr`).  Missing: the case of a file whose last line ends in CR without LF — there
+-- the reconciler rewrites that line (CR becomes part of CRLF), so the re-read record is not "old
+-- lines + new lines" and the lemma `parseRecord_append_open_rejected` does not apply; one would need
+-- that dropping a trailing CR from the last line of a record never removes its open range and never
+-- repairs an error.  No counterexample is known (the statement is believed true).
 theorem track_second_open_range_rejected (u : UTab) (cfg : Config) (now : Instant) (sel : DateSel) (entry : List Bytes)
     (file : Bytes) (rs : List Record) (bos : List BlockOut) (d : Date) (i : Nat) (r : Record) (ind : List Char) (e : Entry)
     (hp : parseDoc file = .records rs bos) (hd : atDate sel now.date = some d)
     (ht : Spec.targetIdx rs d = some i) (hr : rs[i]? = some r) (ho : r.hasOpen = true)
     (hden : Denotes ind entry e) (hopen : isOpen e.val = true) (hi : Spec.Indent ind) (hclean : ∀ l ∈ entry, CleanLine l) :
+    ∀ f', runCmd u cfg now (.track sel entry) file ≠ .ok f'
+-/
+
+/-- A rejected command changes nothing: it has no file to write (C05); in particular `track` of an
+open range into a record that already has one is rejected (partial: `hcr`, the file does not end in
+a lone carriage return).  The indentation `ind` in `Denotes` is arbitrary: what a text denotes does
+not depend on it (`KlogV.RefineLemmas.denotes_transfer`). -/
+theorem track_second_open_range_rejected_partial (u : UTab) (cfg : Config) (now : Instant) (sel : DateSel) (entry : List Bytes)
+    (file : Bytes) (rs : List Record) (bos : List BlockOut) (d : Date) (i : Nat) (r : Record) (ind : List Char) (e : Entry)
+    (hp : parseDoc file = .records rs bos) (hd : atDate sel now.date = some d)
+    (ht : Spec.targetIdx rs d = some i) (hr : rs[i]? = some r) (ho : r.hasOpen = true)
+    (hden : Denotes ind entry e) (hopen : isOpen e.val = true) (hi : Spec.Indent ind) (hclean : ∀ l ∈ entry, CleanLine l)
+    (hcr : file.getLast? ≠ some 13) :
     ∀ f', runCmd u cfg now (.track sel entry) file ≠ .ok f' :=
-  KlogV.track_second_open_rejected u cfg now sel entry file rs bos d i r ind e hp hd ht hr ho hden hopen hi hclean
+  KlogV.track_second_open_rejected_partial u cfg now sel entry file rs bos d i r ind e hp hd ht hr ho hden hopen hi hclean hcr
 
 /-- Histories: the file produced by one command is the input of the next, so the per-command
 theorems compose over any finite sequence of `create`/`track` commands: after the whole history
-the file parses, and each step's records are related to the previous ones by the abstract step. -/
-def AbstractStep (u : UTab) (cfg : Config) (now : Instant) (c : Cmd) (rs rs' : List Record) : Prop :=
-  match c with
-  | .create sel should summary => ∃ d, atDate sel now.date = some d ∧
-      Spec.Create rs d (match should with | some s => some s | none => cfg.should) ((summary.getD []).map decodeGo) rs'
-  | .track sel entry => ∃ d ind e, atDate sel now.date = some d ∧ Spec.Indent ind ∧ Denotes ind entry e ∧ Spec.AddEntry rs d cfg.should e rs'
-  | _ => True
+the file parses, and each step's records are related to the previous ones by the abstract step.
+(definitions: KlogV/Lemmas/Refine1.lean) -/
+abbrev AbstractStep (u : UTab) (cfg : Config) (now : Instant) (c : Cmd) (rs rs' : List Record) : Prop :=
+  KlogV.AbstractStep u cfg now c rs rs'
 
-def CleanCmd : Cmd → Prop
-  | .create _ _ summary => ∀ l ∈ summary.getD [], CleanLine l ∧ okRecordSummaryLine (decodeGo l) = true
-  | .track _ entry => ∀ l ∈ entry, CleanLine l
-  | _ => True
+abbrev CleanCmd (c : Cmd) : Prop := KlogV.CleanCmd c
 
 /-- run a history; each command has its own clock reading -/
-def runHistory (u : UTab) (cfg : Config) : List (Instant × Cmd) → Bytes → Option Bytes
-  | [], f => some f
-  | (now, c) :: rest, f => match runCmd u cfg now c f with
-    | .ok f' => runHistory u cfg rest f'
-    | _ => none
+abbrev runCmdHistory (u : UTab) (cfg : Config) (hist : List (Instant × Cmd)) (f : Bytes) : Option Bytes :=
+  KlogV.runCmdHistory u cfg hist f
 
+/-- the commands of a history the theorem covers: `create`, and `track` with at least one line and
+no line of blanks only (definition: KlogV/Lemmas/Refine22.lean) -/
+abbrev HistCmd (c : Cmd) : Prop := KlogV.HistCmd c
+
+/-
+-- FALSE: as `create_refines` / `track_refines` (one-command histories with the counterexamples there);
+-- moreover the other commands do not preserve "the file does not end in a lone carriage return"
+-- (`stop` with a summary ending in CR on a last line without line feed), so they cannot be steps of
+-- the induction.
 theorem history_refines (u : UTab) (cfg : Config) (hist : List (Instant × Cmd)) (file file' : Bytes)
     (rs : List Record) (bos : List BlockOut) (hp : parseDoc file = .records rs bos)
     (hc : ∀ p ∈ hist, CleanCmd p.2 ∧ (∃ d, atDate (match p.2 with | .create s _ _ => s | .track s _ => s | _ => .default) p.1.date = some d))
-    (h : runHistory u cfg hist file = some file') :
+    (h : runCmdHistory u cfg hist file = some file') :
+    ∃ states : List (List Record), states.length = hist.length + 1 ∧ states.head? = some rs ∧
+      (∃ bos', parseDoc file' = .records (states.getLast?.getD []) bos') ∧
+      ∀ k (hk : k < hist.length), AbstractStep u cfg (hist[k]).1 (hist[k]).2 (states[k]?.getD []) (states[k + 1]?.getD [])
+-/
+
+/-- corrected: histories of `create` / `track` commands (`HistCmd`) at valid dates, starting from a
+file that does not end in a lone carriage return (this is preserved by both commands:
+`create_track_no_lone_cr`) -/
+theorem history_refines (u : UTab) (cfg : Config) (hist : List (Instant × Cmd)) (file file' : Bytes)
+    (rs : List Record) (bos : List BlockOut) (hp : parseDoc file = .records rs bos)
+    (hc : ∀ p ∈ hist, CleanCmd p.2 ∧ HistCmd p.2 ∧
+      (∃ d, atDate (match p.2 with | .create s _ _ => s | .track s _ => s | _ => .default) p.1.date = some d ∧ d.valid = true))
+    (hcr : file.getLast? ≠ some 13)
+    (h : runCmdHistory u cfg hist file = some file') :
     ∃ states : List (List Record), states.length = hist.length + 1 ∧ states.head? = some rs ∧
       (∃ bos', parseDoc file' = .records (states.getLast?.getD []) bos') ∧
       ∀ k (hk : k < hist.length), AbstractStep u cfg (hist[k]).1 (hist[k]).2 (states[k]?.getD []) (states[k + 1]?.getD []) :=
-  KlogV.history_refines_create_track u cfg hist file file' rs bos hp hc h
+  KlogV.history_refines_create_track u cfg hist file file' rs bos hp hc hcr h
+
+/-- `create` and `track` never leave a lone carriage return at the end of the file -/
+theorem create_track_no_lone_cr (u : UTab) (cfg : Config) (now : Instant) (c : Cmd) (file file' : Bytes)
+    (rs : List Record) (bos : List BlockOut) (hp : parseDoc file = .records rs bos)
+    (hc : CleanCmd c ∧ HistCmd c ∧
+      (∃ d, atDate (match c with | .create s _ _ => s | .track s _ => s | _ => .default) now.date = some d ∧ d.valid = true))
+    (hcr : file.getLast? ≠ some 13) (h : runCmd u cfg now c file = .ok file') : file'.getLast? ≠ some 13 :=
+  KlogV.create_track_no_lone_cr u cfg now c file file' rs bos hp hc hcr h
 
 end KlogV.C04
